@@ -33,6 +33,7 @@ type c18Op struct {
 	Op string `json:"op"` // remember | advance | choose | real_add | neg_set
 	// remember: a DNS answer for (name, qtype) with original deadline now+delta entered the cache
 	Name  string `json:"name,omitempty"` // hex bytes
+	Names []string `json:"names,omitempty"`
 	Qtype uint16 `json:"qtype,omitempty"`
 	Delta int64  `json:"delta,omitempty"` // ns, relative to the current (fake) time
 	// advance
@@ -46,6 +47,8 @@ type c18Op struct {
 }
 
 type c18Case struct {
+	BloomN    uint    `json:"bloom_n"` // parameters of realDomainSet as written in NewControlPlane (translator)
+	BloomP    float64 `json:"bloom_p"`
 	Mode      string  `json:"mode"`
 	Resolvers int     `json:"resolvers"`
 	Ops       []c18Op `json:"ops"`
@@ -178,7 +181,7 @@ func c18RunInBubble(cs c18Case, res *c18Result) {
 	ctx, cancel := context.WithCancel(context.Background())
 	defer cancel()
 	cp := &ControlPlane{
-		realDomainSet: bloom.NewWithEstimates(2048, 0.001),
+		realDomainSet: bloom.NewWithEstimates(cs.BloomN, cs.BloomP),
 		log:           lg,
 		ctx:           ctx,
 		cancel:        cancel,
@@ -210,6 +213,52 @@ func c18RunInBubble(cs c18Case, res *c18Result) {
 				cp.muRealDomainSet.Lock()
 				cp.realDomainSet.AddString(c18Unhex(op.Name))
 				cp.muRealDomainSet.Unlock()
+			case "find_fp":
+				// search a never-verified name the verification cache nevertheless reports as verified, then
+				// greedily minimise the set of verified names that causes it (fresh filters, same parameters)
+				var added []string
+				for _, h := range op.Names {
+					added = append(added, c18Unhex(h))
+				}
+				isAdded := map[string]bool{}
+				for _, a := range added {
+					isAdded[a] = true
+				}
+				fp := ""
+				for i := 0; i < int(op.Delta); i++ {
+					name := fmt.Sprintf("never-verified-%d.invalid", i)
+					cp.muRealDomainSet.RLock()
+					hit := cp.realDomainSet.TestString(name)
+					cp.muRealDomainSet.RUnlock()
+					if hit && !isAdded[name] {
+						fp = name
+						break
+					}
+				}
+				if fp != "" {
+					st.Domain = c18Hex(fp)
+					hits := func(subset []string) bool {
+						f := bloom.NewWithEstimates(cs.BloomN, cs.BloomP)
+						for _, a := range subset {
+							f.AddString(a)
+						}
+						return f.TestString(fp)
+					}
+					cur := added
+					if hits(cur) {
+						for i := 0; i < len(cur); {
+							cand := append(append([]string{}, cur[:i]...), cur[i+1:]...)
+							if hits(cand) {
+								cur = cand
+							} else {
+								i++
+							}
+						}
+						for _, a := range cur {
+							st.Probes = append(st.Probes, c18Hex(a))
+						}
+					}
+				}
 			case "neg_set":
 				cp.realDomainNegSet.Store(c18Unhex(op.Name), time.Now().UnixNano()+op.Delta)
 			case "choose":
